@@ -99,6 +99,21 @@ add("C17", EXPL,
     "count nothing, truncated receives count delivered bytes, idle pair agrees).",
     "Bounded as C01. 'Exchanged sizes' = sizes sent; to_app = bytes returned.", "DESIGN.md 2/C17")
 
+add("C19",
+    "explicit-state model checking of the implementation (BFS over canonicalised map states rebuilt by history replay) plus exhaustive "
+    "input enumeration of the path parser, real code under ASan/UBSan, reference dictionary and three-valued grammar recogniser",
+    "Every reachable state of two attribute maps (keys {a,ab} quick / {a,ab,b} thorough x 5 types x 2 values, incl. zero-length and 4 KB "
+    "binaries; adds through generic and typed entry points, adds with value pointers obtained from either map, del, clone, add_all in "
+    "all directions, destroy) is expanded with every applicable operation; after every transition all observers (size, exists, get, five "
+    "typed getters, foreach multiset, equal in both orders, canonical form, heap balance) are compared with a reference list. All strings "
+    "<=5 (quick) / <=7 (thorough) over {a B 0 1 9 . [ ] - + space} plus periodic families up to 263 bytes go through "
+    "parse/inspect/print/re-parse/equal/equal_str/destroy in both modes against an independent recogniser; scripted sequences cover up "
+    "to 3000 keys.",
+    "keys=3 runs in the plain build (functional oracle and process death only); ASan covers keys=2, all paths and the large scripts. Where "
+    "the documentation is silent (key character set, index spelling, more than 64 components, empty string) either answer is accepted. "
+    "Larger key sets are scripted, not exhaustive. libc trusted; allocation failure not injected.",
+    "DESIGN.md 2/C19", engine="enumerator")
+
 
 def main():
     man = dict(
